@@ -2,7 +2,7 @@
 From Coq Require Import List NArith ZArith Bool.
 From Coq.Strings Require Import Byte.
 From Coq Require Import QArith.
-From Model Require Import Bytes Sx Utf8 Frame Parser FrameParser Response Conn Persist Handshake Proxy.
+From Model Require Import Bytes Sx Utf8 Frame Parser FrameParser Response Conn Persist Handshake Proxy Transport.
 Import ListNotations.
 Open Scope N_scope.
 
@@ -140,6 +140,13 @@ Definition cmd_proxy_negotiate (args : list sx) : sx :=
   let script := map (fun s => match un_step s with StRead _ r => r | _ => RExc end) (un_L (nth_sx args 0)) in
   A (match negotiate script px_init with PxTunnel => 0 | PxFail => 1 | PxBlocked => 2 end).
 
+(* (40 tls (records...)) -> (chunk sizes ...) *)
+Definition cmd_drain (args : list sx) : sx :=
+  let t := {| t_tls := negb (un_N (nth_sx args 0) =? 0); t_readahead := un_N (nth_sx args 0) =? 2;
+              t_kernel := map un_B (un_L (nth_sx args 1)); t_pending := [] |} in
+  let '(chunks, t') := drain_all t in
+  L [L (map (fun c => A (blen c)) chunks); A (N.of_nat (total t'))].
+
 Definition run_sx (req : sx) : sx :=
   match req with
   | L (A 1 :: args) => cmd_utf8 args
@@ -149,5 +156,6 @@ Definition run_sx (req : sx) : sx :=
   | L (A 30 :: args) => cmd_request args
   | L (A 31 :: args) => cmd_proxy_request args
   | L (A 32 :: args) => cmd_proxy_negotiate args
+  | L (A 40 :: args) => cmd_drain args
   | _ => L [A 998]
   end.
